@@ -46,7 +46,14 @@ pub fn spell_string(t: &mut Tape, v: &str) -> String {
     for c in v.chars() {
         match c {
             '\\' => o.push_str("\\\\"),
-            '\n' => o.push_str("\\n"),
+            // a line break may be written as an escape or as a physical line break inside the quotes
+            '\n' => {
+                if t.chance(1, 3) {
+                    o.push('\n')
+                } else {
+                    o.push_str("\\n")
+                }
+            }
             '\r' => o.push_str("\\r"),
             '\t' => o.push_str("\\t"),
             c if c == q => {
@@ -84,4 +91,9 @@ pub fn decorate(t: &mut Tape, src: &str) -> String {
         "let zlex = (from `{table}` | select {{`{alias}` = {qual}`{c1}`, `{c2}`, zs1 = {s1}}} | filter `{c2}` != {s2})\n"
     );
     format!("{prefix}{} | join side:left zlex (true)\n", src.trim_end())
+}
+
+/// the same source with Windows line endings (also inside string literals that span lines)
+pub fn crlf(src: &str) -> String {
+    src.replace("\r\n", "\n").replace('\n', "\r\n")
 }
